@@ -12,9 +12,12 @@ package c08
 
 import (
 	"crypto/sha256"
+	"crypto/x509"
+	"encoding/pem"
 	"encoding/base64"
 	"encoding/json"
 	"fmt"
+	"net/http"
 	"net/url"
 	"slices"
 	"sort"
@@ -40,6 +43,7 @@ const (
 	genNone = 0
 	genAT   = 1
 	genRT   = 2
+	genIDT  = 3
 
 	teGrant = "urn:ietf:params:oauth:grant-type:token-exchange"
 )
@@ -52,11 +56,13 @@ type family struct {
 	user    string
 	public  bool // owner has no secret (auth method none)
 	jwtAuth bool // owner authenticates with private_key_jwt
+	host    int  // dynamic-issuer parts: index of the host (= issuer) the session was created under
 	at      string
 	rt      string
 	idt     string
 	atID    string
 	rtID    string
+	idtExp  time.Time // exp claim of the id token
 	// generation 1 = the pair a refresh (rotation) issues; ids are made deterministic per family
 	refreshable bool
 	seq1        int // storage id counter value set before the refresh request
@@ -79,6 +85,9 @@ type tok struct {
 	// (same id, other subject / trailing bytes). Revocation is keyed by token id, so the
 	// statement's "unknown or garbage token" clause does not apply to such a string.
 	names string
+	// provSigned: made by the harness with the provider's own signing key, right issuer, unexpired. Declared as an
+	// id token (which nobody tracks) such a string cannot be told from a genuine one.
+	provSigned bool
 }
 
 type world struct {
@@ -93,15 +102,20 @@ type world struct {
 	rts  []string
 	ops  []string            // state independent part of the operation alphabet
 	ops1 map[string][]string // per family: operations on its generation-1 strings (enabled once refreshed)
+	// dynamic issuer (issuer derived from the request): every request of the history names one of hosts
+	dyn   bool
+	via   string // "host": Host header (op.IssuerFromHost); "forwarded": Forwarded header (op.IssuerFromForwardedOrHost)
+	hosts []string
 	// client assertions (private_key_jwt), one per client and clock bucket, signed up front
 	assertions map[string][]string
 	last       int // index of last clock bucket
 }
 
 const (
-	atLife  = 5 * time.Minute
-	idtLife = time.Hour
-	rtLife  = 5 * time.Hour
+	atLife       = 5 * time.Minute
+	idtLife      = time.Hour
+	idtLifeShort = 4 * time.Minute // id tokens of client webjwt: expired in the second clock bucket of the quick tier
+	rtLife       = 5 * time.Hour
 )
 
 func newCfg() *refstore.Config {
@@ -110,10 +124,43 @@ func newCfg() *refstore.Config {
 		AppType: op.ApplicationTypeNative, Method: oidc.AuthMethodNone,
 		RespTypes: []oidc.ResponseType{oidc.ResponseTypeCode},
 		Grants:    []oidc.GrantType{oidc.GrantTypeCode, oidc.GrantTypeRefreshToken}}
+	cfg.Clients["webjwt"].IDTLifetime = idtLifeShort
 	return cfg
 }
 
-func newRig() *rig.Rig { return rig.MustNew(rig.Opts{Cfg: newCfg()}) }
+func (w *world) newRig() *rig.Rig {
+	o := rig.Opts{Cfg: newCfg()}
+	if w.dyn {
+		if w.via == "forwarded" {
+			o.IssuerFn = op.IssuerFromForwardedOrHost("")
+		} else {
+			o.IssuerFn = op.IssuerFromHost("")
+		}
+	}
+	return rig.MustNew(o)
+}
+
+// issuer the provider derives for a request under host index h.
+func (w *world) issuer(h int) string {
+	if !w.dyn {
+		return rig.Issuer
+	}
+	return "https://" + w.hosts[h]
+}
+
+// req builds one request; in the dynamic-issuer parts it is addressed to host index h.
+func (w *world) req(h int, method, path string, form url.Values, hdr map[string]string) *http.Request {
+	rq := rig.Req(method, path, form, hdr)
+	if w.dyn {
+		if w.via == "forwarded" { // reverse proxy: Host stays the internal name, the public host travels in Forwarded
+			rq.Header.Set("Forwarded", "for=192.0.2.1;host="+w.hosts[h]+";proto=https")
+		} else {
+			rq.Host = w.hosts[h]
+			rq.URL.Host = w.hosts[h]
+		}
+	}
+	return rq
+}
 
 func secretOf(client string) string { return "secret-" + client }
 
@@ -136,10 +183,41 @@ var familyCatalog = map[string]family{
 	"pub":    {name: "pub", client: "pub", user: "u1", public: true},   // public owner (auth method none)
 	"webu2":  {name: "webu2", client: "web", user: "u2"},               // same client as web, other user
 	"jwtc":   {name: "jwtc", client: "jwt", user: "u2", jwtAuth: true}, // owner authenticates with private_key_jwt
+	// dynamic-issuer parts: the host the session is created under is its issuer
+	"ja": {name: "ja", client: "webjwt", user: "u1", host: 0}, // JWT access tokens, issuer of host 0
+	"jb": {name: "jb", client: "webjwt", user: "u2", host: 1}, // JWT access tokens, issuer of host 1
+	"oa": {name: "oa", client: "web", user: "u1", host: 0},    // opaque access tokens, issued under host 0
 }
 
-func build(t *testing.T, c *engine.Check, thorough bool, famNames, refreshable []string) *world {
-	w := &world{byName: map[string]*tok{}}
+// part = one exploration: a set of sessions and (optionally) a provider with a request-derived issuer.
+type part struct {
+	name        string
+	fams        []string
+	refreshable []string
+	dyn         bool
+	via         string
+	depth       int
+}
+
+func jwtPayload(tok string) (map[string]any, []byte, bool) {
+	parts := strings.Split(tok, ".")
+	if len(parts) != 3 {
+		return nil, nil, false
+	}
+	pl, err := base64.RawURLEncoding.DecodeString(parts[1])
+	if err != nil {
+		return nil, nil, false
+	}
+	var claims map[string]any
+	if json.Unmarshal(pl, &claims) != nil {
+		return nil, nil, false
+	}
+	return claims, pl, true
+}
+
+func build(t *testing.T, c *engine.Check, thorough bool, pt part) *world {
+	w := &world{byName: map[string]*tok{}, dyn: pt.dyn, via: pt.via, hosts: []string{"a.example", "b.example"}}
+	famNames, refreshable := pt.fams, pt.refreshable
 	for _, n := range famNames {
 		f := familyCatalog[n]
 		w.fams = append(w.fams, &f)
@@ -147,8 +225,10 @@ func build(t *testing.T, c *engine.Check, thorough bool, famNames, refreshable [
 	w.aux = &family{name: "aux", client: "post", user: "u2"}
 	// no bucket coincides with an expiry instant (issue time + lifetime) of any token, refreshed ones included
 	w.clocks = []time.Duration{time.Second, atLife + 2*time.Second}
-	if thorough {
+	if thorough && !w.dyn {
 		w.clocks = []time.Duration{time.Second, atLife - time.Second, atLife + 2*time.Second, idtLife + 3*time.Second, rtLife - time.Second, rtLife + 4*time.Second}
+	} else if thorough {
+		w.clocks = []time.Duration{time.Second, atLife - time.Second, atLife + 2*time.Second}
 	}
 	w.last = len(w.clocks) - 1
 	w.assertions = map[string][]string{}
@@ -162,27 +242,50 @@ func build(t *testing.T, c *engine.Check, thorough bool, famNames, refreshable [
 		w.assertions["jwt"] = append(w.assertions["jwt"], mkAssertion("jwt", "p256b", "jk2", jose.ES256, at))
 		w.assertions["api"] = append(w.assertions["api"], mkAssertion("api", "rsa3", "ak1", jose.RS256, at))
 	}
-	r := newRig()
+	r := w.newRig()
 	var fail string
 	pan := engine.Bubble(t, 0, func() {
 		for _, f := range append(slices.Clone(w.fams), w.aux) {
 			verifier := "verifier-0123456789-0123456789-0123456789-0123456789"
 			sum := sha256.Sum256([]byte(verifier))
-			code, resp := r.CodeFlow(0, f.client, f.user, "openid profile email offline_access",
-				url.Values{"code_challenge": {b64(sum[:])}, "code_challenge_method": {"S256"}})
-			if code == "" {
-				fail = fmt.Sprintf("prefix: no code for %s: %d %s", f.name, resp.Status, resp.Body)
+			redirect := r.Core.Cfg.Clients[f.client].Redirects[0]
+			// authorize -> login -> callback, every request addressed to the family's host
+			ar := r.Do(0, w.req(f.host, "GET", "/authorize", url.Values{"client_id": {f.client}, "redirect_uri": {redirect},
+				"response_type": {"code"}, "scope": {"openid profile email offline_access"}, "state": {"st"}, "nonce": {"n-1"},
+				"code_challenge": {b64(sum[:])}, "code_challenge_method": {"S256"}}, nil))
+			id := ""
+			if u := ar.Location(); ar.Status/100 == 3 && u != nil && strings.HasPrefix(u.Path, "/login") {
+				id = u.Query().Get("authRequestID")
+			}
+			if id == "" || r.Core.Login(id, f.user) != nil {
+				fail = fmt.Sprintf("prefix: no login redirect for %s: %d %s", f.name, ar.Status, ar.Body)
 				return
 			}
-			var tr *rig.Resp
-			if f.jwtAuth {
-				tr = r.Token(0, url.Values{"grant_type": {"authorization_code"}, "code": {code}, "code_verifier": {verifier},
-					"redirect_uri":          {r.Core.Cfg.Clients[f.client].Redirects[0]},
-					"client_assertion_type": {oidc.ClientAssertionTypeJWTAssertion},
-					"client_assertion":      {mkAssertion(f.client, "p256b", "jk2", jose.ES256, 0)}}, "")
-			} else {
-				tr = r.ExchangeCode(0, f.client, code, url.Values{"code_verifier": {verifier}})
+			cb := r.Do(0, w.req(f.host, "GET", "/authorize/callback", url.Values{"id": {id}}, nil))
+			code := ""
+			if u := cb.Location(); u != nil {
+				code = u.Query().Get("code")
 			}
+			if code == "" {
+				fail = fmt.Sprintf("prefix: no code for %s: %d %s", f.name, cb.Status, cb.Body)
+				return
+			}
+			form := url.Values{"grant_type": {"authorization_code"}, "code": {code}, "code_verifier": {verifier}, "redirect_uri": {redirect}}
+			hdr := map[string]string{}
+			cl := r.Core.Cfg.Clients[f.client]
+			switch {
+			case f.jwtAuth:
+				form.Set("client_assertion_type", oidc.ClientAssertionTypeJWTAssertion)
+				form.Set("client_assertion", mkAssertion(f.client, "p256b", "jk2", jose.ES256, 0))
+			case cl.Method == oidc.AuthMethodBasic:
+				hdr["Authorization"] = rig.Basic(f.client, cl.Secret)
+			case cl.Method == oidc.AuthMethodPost:
+				form.Set("client_id", f.client)
+				form.Set("client_secret", cl.Secret)
+			default:
+				form.Set("client_id", f.client)
+			}
+			tr := r.Do(0, w.req(f.host, "POST", "/oauth/token", form, hdr))
 			f.at, f.rt, f.idt = tr.Str("access_token"), tr.Str("refresh_token"), tr.Str("id_token")
 			if tr.Status != 200 || f.at == "" || f.rt == "" || f.idt == "" {
 				fail = fmt.Sprintf("prefix: token response for %s: %d %s", f.name, tr.Status, tr.Body)
@@ -193,6 +296,23 @@ func build(t *testing.T, c *engine.Check, thorough bool, famNames, refreshable [
 	if pan != "" || fail != "" {
 		c.Internal("prefix failed: " + pan + fail)
 		return nil
+	}
+	for _, f := range append(slices.Clone(w.fams), w.aux) {
+		claims, _, ok := jwtPayload(f.idt)
+		exp, _ := claims["exp"].(float64)
+		if !ok || claims["iss"] != w.issuer(f.host) || claims["sub"] != f.user || exp == 0 {
+			c.Internal(fmt.Sprintf("prefix: id token of %s unexpected: %v", f.name, claims))
+			return nil
+		}
+		f.idtExp = time.Unix(int64(exp), 0)
+		want := idtLife
+		if f.client == "webjwt" {
+			want = idtLifeShort
+		}
+		if d := f.idtExp.Sub(engine.Epoch); d < want-time.Second || d > want+time.Second {
+			c.Internal(fmt.Sprintf("prefix: id token lifetime of %s is %v", f.name, d))
+			return nil
+		}
 	}
 	st := r.Core.St.Clone()
 	for _, f := range append(slices.Clone(w.fams), w.aux) {
@@ -250,6 +370,7 @@ func build(t *testing.T, c *engine.Check, thorough bool, famNames, refreshable [
 		w.byName[f.name+".at"].id = f.atID
 		add(f.name+".rt", "rt", f.rt, i, genRT, "")
 		w.byName[f.name+".rt"].id, w.byName[f.name+".rt"].pairAT = f.rtID, f.atID
+		add(f.name+".idt", "idt", f.idt, i, genIDT, "")
 		if f.refreshable {
 			add(f.name+".at2", atKind, "", i, genAT, "issued by refresh")
 			add(f.name+".rt2", "rt", "", i, genRT, "issued by refresh")
@@ -294,53 +415,89 @@ func build(t *testing.T, c *engine.Check, thorough bool, famNames, refreshable [
 			add("web.wrongsub", "sealed-wrong-subject", seal(f.atID+":u2", cryptoKey), i, genNone, "live id, other subject, right key")
 			add("web.nocolon", "sealed-malformed", seal(f.atID, cryptoKey), i, genNone, "id only")
 			add("web.3parts", "sealed-malformed", seal(f.atID+":"+f.user+":x", cryptoKey), i, genNone, "three parts")
-		case f.name == "webjwt":
+		case f.name == "webjwt" || f.name == "ja":
+			full := f.name == "webjwt" // the dynamic-issuer parts carry a few representatives only
 			parts := strings.Split(f.at, ".")
 			if len(parts) != 3 {
-				c.Internal("prefix: webjwt access token is not a JWT")
+				c.Internal("prefix: " + f.name + " access token is not a JWT")
 				return nil
 			}
-			pl, err := base64.RawURLEncoding.DecodeString(parts[1])
-			if err != nil {
-				c.Internal("prefix: jwt payload: " + err.Error())
-				return nil
-			}
-			var claims map[string]any
-			if err := json.Unmarshal(pl, &claims); err != nil || claims["jti"] != f.atID || claims["sub"] != f.user || claims["iss"] != rig.Issuer {
+			claims, pl, ok := jwtPayload(f.at)
+			if !ok || claims["jti"] != f.atID || claims["sub"] != f.user || claims["iss"] != w.issuer(f.host) {
 				c.Internal(fmt.Sprintf("prefix: jwt payload unexpected: %s", pl))
 				return nil
 			}
 			provKey := keys.KeyForAlg(jose.ES256) // the provider's signing key fixture
 			otherSig := keys.Get("p256b")
-			variant := func(edit func(m map[string]any)) []byte {
+			variantOf := func(base map[string]any, edit func(m map[string]any)) []byte {
 				m := map[string]any{}
-				for k, v := range claims {
+				for k, v := range base {
 					m[k] = v
 				}
 				edit(m)
 				b, _ := json.Marshal(m)
 				return b
 			}
+			variant := func(edit func(m map[string]any)) []byte { return variantOf(claims, edit) }
 			evil := variant(func(m map[string]any) { m["iss"] = "https://other-issuer.example" })
-			add("webjwt.otheriss-otherkey", "jwt-other-issuer", keys.SignCompact(otherSig, jose.ES256, "sig-1", evil), i, genNone, "other issuer, its own key, same kid")
-			add("webjwt.otheriss-samekey", "jwt-other-issuer-same-key", keys.SignCompact(provKey, jose.ES256, "sig-1", evil), i, genNone, "other issuer sharing the signing key (multi-tenant)")
-			add("webjwt.otherkey", "jwt-wrong-key", keys.SignCompact(otherSig, jose.ES256, "sig-1", pl), i, genNone, "right claims, attacker key, same kid")
-			longer := variant(func(m map[string]any) { m["exp"] = float64(engine.Epoch.Add(240 * time.Hour).Unix()) })
-			add("webjwt.edited", "jwt-edited-payload", parts[0]+"."+b64(longer)+"."+parts[2], i, genNone, "exp extended, original signature")
-			past := variant(func(m map[string]any) { m["exp"] = float64(engine.Epoch.Add(-time.Hour).Unix()) })
-			add("webjwt.expired", "jwt-expired-signed", keys.SignCompact(provKey, jose.ES256, "sig-1", past), i, genNone, "exp in the past, live jti, valid signature")
-			unk := variant(func(m map[string]any) { m["jti"] = "at999" })
-			add("webjwt.unissued", "jwt-unissued-jti", keys.SignCompact(provKey, jose.ES256, "sig-1", unk), i, genNone, "valid signature, jti never issued")
-			ws := variant(func(m map[string]any) { m["sub"] = "u2" })
-			add("webjwt.wrongsub", "jwt-wrong-subject", keys.SignCompact(provKey, jose.ES256, "sig-1", ws), i, genNone, "valid signature, live jti, other subject")
-			w.byName["webjwt.wrongsub"].names = f.atID
-			add("webjwt.algnone", "jwt-alg-none", b64([]byte(`{"alg":"none","typ":"JWT","kid":"sig-1"}`))+"."+parts[1]+".", i, genNone, "unsigned")
+			add(f.name+".otheriss-samekey", "jwt-other-issuer-same-key", keys.SignCompact(provKey, jose.ES256, "sig-1", evil), i, genNone, "other issuer sharing the signing key (multi-tenant)")
+			add(f.name+".otherkey", "jwt-wrong-key", keys.SignCompact(otherSig, jose.ES256, "sig-1", pl), i, genNone, "right claims, attacker key, same kid")
+			if full {
+				add("webjwt.otheriss-otherkey", "jwt-other-issuer", keys.SignCompact(otherSig, jose.ES256, "sig-1", evil), i, genNone, "other issuer, its own key, same kid")
+				longer := variant(func(m map[string]any) { m["exp"] = float64(engine.Epoch.Add(240 * time.Hour).Unix()) })
+				add("webjwt.edited", "jwt-edited-payload", parts[0]+"."+b64(longer)+"."+parts[2], i, genNone, "exp extended, original signature")
+				past := variant(func(m map[string]any) { m["exp"] = float64(engine.Epoch.Add(-time.Hour).Unix()) })
+				add("webjwt.expired", "jwt-expired-signed", keys.SignCompact(provKey, jose.ES256, "sig-1", past), i, genNone, "exp in the past, live jti, valid signature")
+				unk := variant(func(m map[string]any) { m["jti"] = "at999" })
+				add("webjwt.unissued", "jwt-unissued-jti", keys.SignCompact(provKey, jose.ES256, "sig-1", unk), i, genNone, "valid signature, jti never issued")
+				ws := variant(func(m map[string]any) { m["sub"] = "u2" })
+				add("webjwt.wrongsub", "jwt-wrong-subject", keys.SignCompact(provKey, jose.ES256, "sig-1", ws), i, genNone, "valid signature, live jti, other subject")
+				w.byName["webjwt.wrongsub"].names = f.atID
+				w.byName["webjwt.wrongsub"].provSigned, w.byName["webjwt.unissued"].provSigned = true, true
+				add("webjwt.algnone", "jwt-alg-none", b64([]byte(`{"alg":"none","typ":"JWT","kid":"sig-1"}`))+"."+parts[1]+".", i, genNone, "unsigned")
+				// algorithm confusion: HMAC keyed with the published public key (PEM), kid of the real key
+				der, err := x509.MarshalPKIXPublicKey(provKey.PubForJose())
+				if err != nil {
+					c.Internal("prefix: public key: " + err.Error())
+					return nil
+				}
+				hs, err := jose.NewSigner(jose.SigningKey{Algorithm: jose.HS256, Key: pem.EncodeToMemory(&pem.Block{Type: "PUBLIC KEY", Bytes: der})},
+					(&jose.SignerOptions{}).WithType("JWT").WithHeader("kid", "sig-1"))
+				if err != nil {
+					c.Internal("prefix: hs256 signer: " + err.Error())
+					return nil
+				}
+				obj, _ := hs.Sign(pl)
+				hsTok, _ := obj.CompactSerialize()
+				add("webjwt.hs256-pubkey", "jwt-hs256-public-key", hsTok, i, genNone, "right claims, HS256 keyed with the provider's public key")
+				add("webjwt.otherkey-nokid", "jwt-wrong-key", keys.SignCompact(otherSig, jose.ES256, "", pl), i, genNone, "right claims, attacker key, no kid")
+				if thorough {
+					add("webjwt.otherkey-otherkid", "jwt-wrong-key", keys.SignCompact(otherSig, jose.ES256, "sig-9", pl), i, genNone, "right claims, attacker key, unpublished kid")
+				}
+			}
+			// forged id tokens (exchange subject / actor of type id_token, id_token_hint)
+			idc, idpl, _ := jwtPayload(f.idt)
+			idparts := strings.Split(f.idt, ".")
+			idPast := variantOf(idc, func(m map[string]any) { m["exp"] = float64(engine.Epoch.Add(-time.Hour).Unix()) })
+			add(f.name+".idt-expired", "idt-expired-signed", keys.SignCompact(provKey, jose.ES256, "sig-1", idPast), i, genNone, "id token with exp in the past, valid signature")
+			add(f.name+".idt-otherkey", "idt-wrong-key", keys.SignCompact(otherSig, jose.ES256, "sig-1", idpl), i, genNone, "id token claims, attacker key, same kid")
+			if full {
+				idEvil := variantOf(idc, func(m map[string]any) { m["iss"] = "https://other-issuer.example" })
+				add("webjwt.idt-otheriss-samekey", "idt-other-issuer-same-key", keys.SignCompact(provKey, jose.ES256, "sig-1", idEvil), i, genNone, "id token of another issuer sharing the signing key")
+				idLonger := variantOf(idc, func(m map[string]any) { m["exp"] = float64(engine.Epoch.Add(240 * time.Hour).Unix()) })
+				add("webjwt.idt-edited", "idt-edited-payload", idparts[0]+"."+b64(idLonger)+"."+idparts[2], i, genNone, "id token, exp extended, original signature")
+				add("webjwt.idt-algnone", "idt-alg-none", b64([]byte(`{"alg":"none","typ":"JWT","kid":"sig-1"}`))+"."+idparts[1]+".", i, genNone, "unsigned id token")
+			}
 		}
 	}
-	add("g.unissued", "sealed-unissued", seal("x:y", cryptoKey), -1, genNone, "x:y sealed under the right key, never issued")
-	add("g.garbage64", "garbage", strings.Repeat("QUJD", 8), -1, genNone, "base64url text that decrypts to noise")
+	if !w.dyn {
+		add("g.unissued", "sealed-unissued", seal("x:y", cryptoKey), -1, genNone, "x:y sealed under the right key, never issued")
+		add("g.garbage64", "garbage", strings.Repeat("QUJD", 8), -1, genNone, "base64url text that decrypts to noise")
+	}
 	add("g.garbagetxt", "garbage", "not a token!", -1, genNone, "")
-	add("g.empty", "empty", "", -1, genNone, "")
+	if !w.dyn {
+		add("g.empty", "empty", "", -1, genNone, "")
+	}
 
 	// every forged string must really differ from what was issued: decrypting / reading it
 	// must not give the (id, subject) pair of a tracked token unless it is the wrong-key / expired / other-issuer class
@@ -363,24 +520,46 @@ func build(t *testing.T, c *engine.Check, thorough bool, famNames, refreshable [
 
 	// operation alphabet
 	w.ops1 = map[string][]string{}
+	uiChannels := []string{"hdr", "form", "hdr-lc", "query", "basic+form"}
+	inCallers := []string{"owner", "api", "apipost", "apiassert", "nonaud", "unauth", "badsecret"}
+	rvBy := []string{"owner", "ownerpost", "foreign", "spoof", "foreignpost", "public", "assert", "claim"}
+	rvHints := []string{"none", "access_token", "refresh_token", "bogus"}
+	exTypes := []string{"access_token", "refresh_token", "id_token"}
+	esForms := []string{"hint", "hint+cid"}
+	var routerHosts []string // second field of every request operation: router, or router@host
 	for router := range rig.Routers {
-		R := fmt.Sprint(router)
+		if !w.dyn {
+			routerHosts = append(routerHosts, fmt.Sprint(router))
+			continue
+		}
+		for h := range w.hosts {
+			routerHosts = append(routerHosts, fmt.Sprintf("%d@%d", router, h))
+		}
+	}
+	if w.dyn { // the host dimension is the subject of these parts; caller / hint / channel spellings are covered by the static parts
+		uiChannels = []string{"hdr", "form"}
+		inCallers = []string{"owner", "api", "nonaud"}
+		rvBy = []string{"owner", "foreign"}
+		rvHints = []string{"none", "access_token"}
+		esForms = []string{"hint"}
+	}
+	for _, R := range routerHosts {
 		for _, tk := range w.toks {
 			all := &w.ops
 			if tk.gen == 1 {
 				l := w.ops1[w.fams[tk.fam].name]
 				all = &l
 			}
-			for _, ch := range []string{"hdr", "form"} {
+			for _, ch := range uiChannels {
 				*all = append(*all, strings.Join([]string{"ui", R, tk.name, ch}, "|"))
 			}
-			for _, caller := range []string{"owner", "api", "apipost", "apiassert", "nonaud", "unauth", "badsecret"} {
+			for _, caller := range inCallers {
 				if caller == "owner" && w.owner(tk).public {
 					continue // a public client cannot authenticate at the introspection endpoint
 				}
 				*all = append(*all, strings.Join([]string{"in", R, tk.name, caller}, "|"))
 			}
-			for _, by := range []string{"owner", "ownerpost", "foreign", "spoof", "foreignpost", "public", "assert", "claim"} {
+			for _, by := range rvBy {
 				own := w.owner(tk)
 				if by == "claim" && own.public {
 					continue // for a public owner this is the legitimate way to authenticate (= owner)
@@ -391,7 +570,7 @@ func build(t *testing.T, c *engine.Check, thorough bool, famNames, refreshable [
 				if by == "assert" && own.jwtAuth {
 					continue // the asserting client is the owner
 				}
-				for _, hint := range []string{"none", "access_token", "refresh_token", "bogus"} {
+				for _, hint := range rvHints {
 					*all = append(*all, strings.Join([]string{"rv", R, tk.name, by, hint}, "|"))
 				}
 			}
@@ -399,11 +578,11 @@ func build(t *testing.T, c *engine.Check, thorough bool, famNames, refreshable [
 				if role == "actor" && tk.name == "g.empty" {
 					continue // an empty actor_token means "no actor"
 				}
-				for _, tt := range []string{"access_token", "refresh_token"} {
+				for _, tt := range exTypes {
 					// requested_token_type named explicitly (so that the answer does not hinge on the storage's
 					// default, which refstore only fills in after its own liveness check); thorough adds the implicit form
 					rtts := []string{"rtt-at"}
-					if thorough {
+					if thorough && !w.dyn {
 						rtts = append(rtts, "rtt-none")
 					}
 					for _, rtt := range rtts {
@@ -416,7 +595,9 @@ func build(t *testing.T, c *engine.Check, thorough bool, famNames, refreshable [
 			}
 		}
 		for _, f := range w.fams {
-			w.ops = append(w.ops, strings.Join([]string{"es", R, f.name}, "|"))
+			for _, ef := range esForms {
+				w.ops = append(w.ops, strings.Join([]string{"es", R, f.name, ef}, "|"))
+			}
 		}
 		for _, f := range w.fams {
 			if f.refreshable {
@@ -446,12 +627,23 @@ func (w *world) famByName(n string) *family {
 // ---------------------------------------------------------------------------
 // state
 
-type held struct{ AT, RT string }
+type held struct {
+	AT, RT string
+	Host   int // dynamic-issuer parts: host the refresh was sent to (= issuer of the second generation)
+}
 
 type S struct {
 	St    *refstore.State
 	Clock int
 	Held  map[string]held // family -> strings issued by its refresh (never mutated in place)
+	// dynamic-issuer parts only. The provider object is part of the system: every transition is executed on
+	// a fresh provider that first re-serves Path (the requests that led to this state), so anything the provider
+	// remembers from earlier requests of the history is in effect when the judged request arrives. The abstract
+	// state keeps what such a memory could be keyed by: the host of the first request served and whether
+	// both hosts were served.
+	Path  []string
+	First int // 1 + host index of the first request of the history, 0 = none yet
+	Both  bool
 }
 
 // str is the string the actors present for tk in state s.
@@ -529,7 +721,10 @@ func (w *world) canon(s S) string {
 		fmt.Fprintf(&b, "|%s/%s/%s/%s/%d", id, r.ClientID, r.Subject, r.Access, deadAt(r.Exp))
 	}
 	for _, f := range refstore.SortedKeys(s.Held) {
-		fmt.Fprintf(&b, "|held:%s", f)
+		fmt.Fprintf(&b, "|held:%s@%d", f, s.Held[f].Host)
+	}
+	if w.dyn {
+		fmt.Fprintf(&b, "|first%d,%v", s.First, s.Both)
 	}
 	fmt.Fprintf(&b, "|q%d,%d,%d,%d", len(s.St.AuthReqs), len(s.St.Codes), len(s.St.Devices), s.St.Seq)
 	return b.String()
@@ -582,8 +777,47 @@ func compare(l0, l1 map[string]bool, e effect) (undead, changed []string) {
 	return
 }
 
+// tokHost is the host index (= issuer) a genuine token string was issued under.
+func (w *world) tokHost(s S, tk *tok) int {
+	if tk.gen == 1 {
+		return s.Held[w.fams[tk.fam].name].Host
+	}
+	return w.owner(tk).host
+}
+
+// classAt is the liveness class of tk as seen by a request addressed to host index h. In the dynamic-issuer
+// parts a genuine token presented under another host than the one it was issued under is
+//   - for strings that carry an iss claim (JWT access token, id token): "a token of another issuer" (xiss-*),
+//     which the statement does not allow to be honoured, live or not;
+//   - for opaque strings (opaque access token, refresh token), which the storage alone binds: left open while
+//     the token is live (xhost-live-*), dead as usual otherwise.
+func (w *world) classAt(s S, tk *tok, h int) string {
+	class := w.tokClass(tk, s.St, w.now(s))
+	if !w.dyn || tk.genuine == genNone || w.tokHost(s, tk) == h {
+		return class
+	}
+	switch {
+	case tk.genuine == genIDT:
+		return "xiss-idt"
+	case tk.kind == "jwt-at":
+		return "xiss-at"
+	case strings.HasPrefix(class, "live-"):
+		return "xhost-" + class
+	}
+	return class
+}
+
+func openClass(class string) bool { // classes the statement leaves open at userinfo / introspection
+	return class == "live-rt" || class == "live-idt" || class == "xhost-live-at" || class == "xhost-live-rt"
+}
+
 func (w *world) tokClass(tk *tok, st *refstore.State, now time.Time) string {
 	switch tk.genuine {
+	case genIDT:
+		if now.Before(w.owner(tk).idtExp) {
+			return "live-idt"
+		}
+		return "dead-idt"
 	case genAT:
 		if liveAT(st, tk.id, now) {
 			return "live-at"
@@ -607,8 +841,12 @@ func group(tk *tok) string {
 		return tk.kind // opaque-at | jwt-at
 	case tk.genuine == genRT:
 		return "rt"
+	case tk.genuine == genIDT:
+		return "idt"
 	case strings.HasPrefix(tk.kind, "jwt-"):
 		return "forged-jwt"
+	case strings.HasPrefix(tk.kind, "idt-"):
+		return "forged-idt"
 	case strings.HasPrefix(tk.kind, "at-"):
 		return "tampered-opaque"
 	case strings.HasPrefix(tk.kind, "sealed-"):
@@ -638,97 +876,144 @@ func short(b []byte) string {
 
 func (w *world) newStep(t *testing.T) func(int) func(S, string) (S, engine.Result) {
 	return func(int) func(S, string) (S, engine.Result) {
-		r := newRig()
+		if !w.dyn {
+			r := w.newRig()
+			return func(s S, opl string) (S, engine.Result) { return w.exec(t, r, s, opl) }
+		}
 		return func(s S, opl string) (S, engine.Result) {
-			p := strings.Split(opl, "|")
-			if p[0] == "adv" {
-				if s.Clock >= w.last {
-					return s, engine.OK("advance", "at-end")
-				}
-				return S{St: s.St, Clock: s.Clock + 1, Held: s.Held}, engine.OK("advance", "ok")
+			r := w.newRig() // fresh provider, then the history that led to s, then the judged request
+			cur := S{St: w.init, Clock: 0}
+			for _, o := range s.Path {
+				cur, _ = w.exec(t, r, cur, o)
 			}
-			router := 0
-			if p[1] == "1" {
-				router = 1
+			if a, b := w.canon(cur), w.canon(s); a != b {
+				return s, engine.Bad("internal", "replay-diverged", "C08/internal/replay-diverged", fmt.Sprintf("path %v: %s vs %s", s.Path, a, b))
 			}
-			st := s.St.Clone()
-			r.Core.Reset(st)
-			now := w.now(s)
-			l0 := w.liveness(s.St, now)
-			var resp *rig.Resp
-			do := func(method, path string, form url.Values, hdr map[string]string) {
-				pan := engine.Bubble(t, w.clocks[s.Clock], func() {
-					resp = r.Do(router, rig.Req(method, path, form, hdr))
-				})
-				if resp == nil {
-					resp = &rig.Resp{Panic: "bubble: " + pan}
-				} else if pan != "" && resp.Panic == "" {
-					resp.Panic = pan
-				}
-			}
-			var res engine.Result
-			var eff effect
-			var opKind, inClass string
-			var newHeld map[string]held
-			switch p[0] {
-			case "rf":
-				res, eff, newHeld, opKind, inClass = w.doRefresh(s, st, p, router, do, &resp)
-			case "ui":
-				res, opKind, inClass = w.doUserinfo(s, p, router, do, &resp)
-			case "in":
-				res, opKind, inClass = w.doIntrospect(s, p, router, do, &resp)
-			case "rv":
-				res, eff, opKind, inClass = w.doRevoke(s, p, router, do, &resp)
-			case "ex":
-				res, opKind, inClass = w.doExchange(s, p, router, do, &resp)
-			case "es":
-				res, eff, opKind, inClass = w.doEndSession(s, p, router, do, &resp)
-			default:
-				return s, engine.Bad("internal", "unknown-op", "C08/internal/unknown-op", opl)
-			}
-			w.gc(st)
-			l1 := w.liveness(st, now)
-			undead, changed := compare(l0, l1, eff)
-			post := S{St: st, Clock: s.Clock, Held: s.Held}
-			if newHeld != nil {
-				post.Held = newHeld
-			}
-			if res.Sig != "" {
-				return post, res
-			}
-			if len(undead) > 0 {
-				what := "revoke-owner-ineffective"
-				if opKind == "end_session" {
-					what = "logout-ineffective"
-				}
-				return post, engine.Bad(res.Rule, res.Outcome+"+still-live", fmt.Sprintf("C08/%s/%s/%s", what, routerName(router), inClass),
-					fmt.Sprintf("op %s answered %d but %v still live in the store", opl, resp.Status, undead))
-			}
-			if len(changed) > 0 {
-				return post, engine.Bad(res.Rule, res.Outcome+"+side-effect", fmt.Sprintf("C08/unexpected-liveness-change/%s/%s-%s", routerName(router), opKind, inClass),
-					fmt.Sprintf("op %s (status %d) changed the liveness of %v, which the statement does not allow", opl, resp.Status, changed))
-			}
-			return post, res
+			return w.exec(t, r, s, opl)
 		}
 	}
+}
+
+// exec runs one operation on the provider of r from state s and judges it.
+func (w *world) exec(t *testing.T, r *rig.Rig, s S, opl string) (S, engine.Result) {
+	p := strings.Split(opl, "|")
+	next := func(n S) S { // bookkeeping of the dynamic-issuer parts
+		if w.dyn {
+			n.Path = append(slices.Clone(s.Path), opl)
+			n.First, n.Both = s.First, s.Both
+		}
+		return n
+	}
+	if p[0] == "adv" {
+		if s.Clock >= w.last {
+			return s, engine.OK("advance", "at-end")
+		}
+		return next(S{St: s.St, Clock: s.Clock + 1, Held: s.Held}), engine.OK("advance", "ok")
+	}
+	router := int(p[1][0] - '0')
+	host := 0
+	if i := strings.IndexByte(p[1], '@'); i >= 0 {
+		host = int(p[1][i+1] - '0')
+	}
+	st := s.St.Clone()
+	r.Core.Reset(st)
+	now := w.now(s)
+	l0 := w.liveness(s.St, now)
+	var resp *rig.Resp
+	do := func(method, path string, form url.Values, hdr map[string]string) {
+		pan := engine.Bubble(t, w.clocks[s.Clock], func() {
+			resp = r.Do(router, w.req(host, method, path, form, hdr))
+		})
+		if resp == nil {
+			resp = &rig.Resp{Panic: "bubble: " + pan}
+		} else if pan != "" && resp.Panic == "" {
+			resp.Panic = pan
+		}
+	}
+	var res engine.Result
+	var eff effect
+	var opKind, inClass string
+	var newHeld map[string]held
+	switch p[0] {
+	case "rf":
+		res, eff, newHeld, opKind, inClass = w.doRefresh(s, st, p, router, host, do, &resp)
+	case "ui":
+		res, opKind, inClass = w.doUserinfo(s, p, router, host, do, &resp)
+	case "in":
+		res, opKind, inClass = w.doIntrospect(s, p, router, host, do, &resp)
+	case "rv":
+		res, eff, opKind, inClass = w.doRevoke(s, p, router, host, do, &resp)
+	case "ex":
+		res, opKind, inClass = w.doExchange(s, p, router, host, do, &resp)
+	case "es":
+		res, eff, opKind, inClass = w.doEndSession(s, p, router, host, do, &resp)
+	default:
+		return s, engine.Bad("internal", "unknown-op", "C08/internal/unknown-op", opl)
+	}
+	w.gc(st)
+	l1 := w.liveness(st, now)
+	undead, changed := compare(l0, l1, eff)
+	post := next(S{St: st, Clock: s.Clock, Held: s.Held})
+	if w.dyn {
+		if post.First == 0 {
+			post.First = host + 1
+		} else if post.First != host+1 {
+			post.Both = true
+		}
+	}
+	if newHeld != nil {
+		post.Held = newHeld
+	}
+	if res.Sig != "" {
+		return post, res
+	}
+	if len(undead) > 0 {
+		what := "revoke-owner-ineffective"
+		if opKind == "end_session" {
+			what = "logout-ineffective"
+		}
+		return post, engine.Bad(res.Rule, res.Outcome+"+still-live", fmt.Sprintf("C08/%s/%s/%s", what, routerName(router), inClass),
+			fmt.Sprintf("op %s answered %d but %v still live in the store", opl, resp.Status, undead))
+	}
+	if len(changed) > 0 {
+		return post, engine.Bad(res.Rule, res.Outcome+"+side-effect", fmt.Sprintf("C08/unexpected-liveness-change/%s/%s-%s", routerName(router), opKind, inClass),
+			fmt.Sprintf("op %s (status %d) changed the liveness of %v, which the statement does not allow", opl, resp.Status, changed))
+	}
+	return post, res
 }
 
 type doFn func(method, path string, form url.Values, hdr map[string]string)
 
 // --- userinfo ---------------------------------------------------------------
 
-func (w *world) doUserinfo(s S, p []string, router int, do doFn, resp **rig.Resp) (engine.Result, string, string) {
+func (w *world) doUserinfo(s S, p []string, router, host int, do doFn, resp **rig.Resp) (engine.Result, string, string) {
 	tk := w.byName[p[2]]
-	class := w.tokClass(tk, s.St, w.now(s))
-	if p[3] == "hdr" {
-		do("GET", "/userinfo", nil, map[string]string{"Authorization": "Bearer " + w.str(s, tk)})
-	} else {
-		do("POST", "/userinfo", url.Values{"access_token": {w.str(s, tk)}}, nil)
+	class := w.classAt(s, tk, host)
+	str := w.str(s, tk)
+	canonical := true // the two ways of sending the token the statement's "UserInfo returns claims" is read for
+	switch p[3] {
+	case "hdr":
+		do("GET", "/userinfo", nil, map[string]string{"Authorization": "Bearer " + str})
+	case "form":
+		do("POST", "/userinfo", url.Values{"access_token": {str}}, nil)
+	case "hdr-lc": // scheme spelled in lower case
+		canonical = false
+		do("GET", "/userinfo", nil, map[string]string{"Authorization": "bearer " + str})
+	case "query": // token in the query string of a GET
+		canonical = false
+		do("GET", "/userinfo", url.Values{"access_token": {str}}, nil)
+	case "basic+form": // another Authorization scheme in the header, the token in the body
+		canonical = false
+		do("POST", "/userinfo", url.Values{"access_token": {str}}, map[string]string{"Authorization": rig.Basic("web", secretOf("web"))})
 	}
 	rp := *resp
 	rule := "userinfo-" + class
+	if !canonical {
+		rule += "-altchannel"
+	}
 	out := "refused"
 	wantSub := w.owner(tk).user
+	live := class == "live-at" || class == "xhost-live-at"
 	switch {
 	case rp.Panic != "":
 		out = "panic"
@@ -736,7 +1021,7 @@ func (w *world) doUserinfo(s S, p []string, router int, do doFn, resp **rig.Resp
 		m := rp.JSON()
 		if len(m) == 0 {
 			out = "empty2xx"
-		} else if sub, _ := m["sub"].(string); class == "live-at" && sub != wantSub {
+		} else if sub, _ := m["sub"].(string); live && sub != wantSub {
 			return engine.Bad(rule, "served-wrong-subject", fmt.Sprintf("C08/userinfo-wrong-subject/%s/%s", routerName(router), group(tk)),
 				fmt.Sprintf("userinfo for the token of %s returned %s", wantSub, short(rp.Body))), "userinfo", group(tk)
 		} else {
@@ -747,14 +1032,17 @@ func (w *world) doUserinfo(s S, p []string, router int, do doFn, resp **rig.Resp
 	default:
 		out = fmt.Sprintf("status%dxx", rp.Status/100)
 	}
-	switch class {
-	case "live-at":
+	switch {
+	case class == "live-at" && canonical:
 		if out != "served" && out != "panic" {
 			return engine.Bad(rule, out, fmt.Sprintf("C08/userinfo-refused-live-token/%s/%s", routerName(router), group(tk)),
 				fmt.Sprintf("live access token %s (%s channel) not honoured: %d %s", tk.name, p[3], rp.Status, short(rp.Body))), "userinfo", group(tk)
 		}
-	case "live-rt":
-		// the statement does not say what userinfo does with a live refresh token: Either
+	case class == "live-at":
+		// a live token sent through a channel the statement does not name (scheme case, query string, second scheme): Either
+	case openClass(class):
+		// the statement does not say what userinfo does with a live refresh / id token,
+		// nor with a live opaque token presented under another host of a dynamic issuer: Either
 	default:
 		if out == "served" {
 			return engine.Bad(rule, out, fmt.Sprintf("C08/userinfo-honoured-%s/%s/%s", class, routerName(router), group(tk)),
@@ -766,9 +1054,9 @@ func (w *world) doUserinfo(s S, p []string, router int, do doFn, resp **rig.Resp
 
 // --- introspection ----------------------------------------------------------
 
-func (w *world) doIntrospect(s S, p []string, router int, do doFn, resp **rig.Resp) (engine.Result, string, string) {
+func (w *world) doIntrospect(s S, p []string, router, host int, do doFn, resp **rig.Resp) (engine.Result, string, string) {
 	tk := w.byName[p[2]]
-	class := w.tokClass(tk, s.St, w.now(s))
+	class := w.classAt(s, tk, host)
 	own := w.owner(tk)
 	form := url.Values{"token": {w.str(s, tk)}}
 	hdr := map[string]string{}
@@ -834,7 +1122,7 @@ func (w *world) doIntrospect(s S, p []string, router int, do doFn, resp **rig.Re
 			fmt.Sprintf("non-active answer for %s by %s carries more than active:false: %d %s", tk.name, p[3], rp.Status, short(rp.Body))), "introspect", in
 	}
 	mustActive := class == "live-at" && callerClass == "aud"
-	either := (class == "live-rt" && callerClass == "aud") || ((class == "live-rt" || class == "live-at") && callerClass == "aud-either")
+	either := (openClass(class) && callerClass == "aud") || ((openClass(class) || class == "live-at") && callerClass == "aud-either")
 	switch {
 	case mustActive:
 		if out == "active" {
@@ -859,14 +1147,19 @@ func (w *world) doIntrospect(s S, p []string, router int, do doFn, resp **rig.Re
 
 // --- revocation -------------------------------------------------------------
 
-func (w *world) doRevoke(s S, p []string, router int, do doFn, resp **rig.Resp) (engine.Result, effect, string, string) {
+func (w *world) doRevoke(s S, p []string, router, host int, do doFn, resp **rig.Resp) (engine.Result, effect, string, string) {
 	tk := w.byName[p[2]]
 	by, hint := p[3], p[4]
 	own := w.owner(tk)
 	now := w.now(s)
-	class := w.tokClass(tk, s.St, now)
-	tclass := "unknown"
+	class := w.classAt(s, tk, host)
+	tclass := "unknown" // includes id tokens (live or expired): nothing the revocation endpoint can revoke
 	switch {
+	case class == "xiss-at" || class == "xhost-live-at" || class == "xhost-live-rt":
+		// dynamic issuer, token issued under another host: to this issuer the string is either unknown (answer 200,
+		// no effect) or, for strings the storage alone binds, the owner's token (revoked): status and effect on
+		// the target are left open, any other effect is not
+		tclass = "xhost"
 	case class == "live-at" || class == "live-rt":
 		tclass = "live"
 	case class == "dead-at" || class == "dead-rt":
@@ -952,6 +1245,11 @@ func (w *world) doRevoke(s S, p []string, router int, do doFn, resp **rig.Resp) 
 	bad := func(what, detail string) (engine.Result, effect, string, string) {
 		return engine.Bad(rule, out, fmt.Sprintf("C08/%s/%s/%s", what, routerName(router), in), detail), eff, "revoke", in
 	}
+	if tclass == "xhost" && (byClass == "owner" || byClass == "owner-either") && out == "ok" {
+		target()
+		eff.free = append(eff.free, eff.mustDead...)
+		eff.mustDead = nil
+	}
 	switch byClass {
 	case "owner":
 		switch tclass {
@@ -973,7 +1271,8 @@ func (w *world) doRevoke(s S, p []string, router int, do doFn, resp **rig.Resp) 
 	case "owner-either":
 		if out == "ok" {
 			switch {
-			case tk.genuine != genNone:
+			case tclass == "xhost":
+			case tk.genuine == genAT || tk.genuine == genRT:
 				target()
 			case tclass == "tampered-live":
 				eff.free = []string{"A:" + tk.names}
@@ -1000,12 +1299,12 @@ func (w *world) doRevoke(s S, p []string, router int, do doFn, resp **rig.Resp) 
 
 // --- token exchange ---------------------------------------------------------
 
-func (w *world) doExchange(s S, p []string, router int, do doFn, resp **rig.Resp) (engine.Result, string, string) {
+func (w *world) doExchange(s S, p []string, router, host int, do doFn, resp **rig.Resp) (engine.Result, string, string) {
 	tk := w.byName[p[2]]
 	role, tt := p[3], p[4]
 	own := w.owner(tk)
 	now := w.now(s)
-	class := w.tokClass(tk, s.St, now)
+	class := w.classAt(s, tk, host)
 	caller := own.client
 	if own.public || own.jwtAuth {
 		caller = "web" // the token endpoint's exchange grant takes Basic credentials only; who asks is not C08's subject
@@ -1024,17 +1323,40 @@ func (w *world) doExchange(s S, p []string, router int, do doFn, resp **rig.Resp
 		form.Set("subject_token_type", "urn:ietf:params:oauth:token-type:refresh_token")
 		form.Set("actor_token", w.str(s, tk))
 		form.Set("actor_token_type", urn)
-		subjectOK = liveRT(s.St, w.aux.rtID, now)
+		subjectOK = liveRT(s.St, w.aux.rtID, now) && (!w.dyn || w.aux.host == host)
 	}
 	do("POST", "/oauth/token", form, map[string]string{"Authorization": rig.Basic(caller, secretOf(caller))})
 	rp := *resp
-	match := (tt == "access_token" && class == "live-at") || (tt == "refresh_token" && class == "live-rt")
+	// an id token is tracked by nobody (the reference storage included): it counts as live while it is unexpired;
+	// acceptance is demanded only while the session it belongs to still has a token in the store, after that
+	// (logout, everything revoked) the statement would refuse it but the decision is the storage's: Either
+	sessionOpen := func() bool {
+		for _, t := range s.St.Tokens {
+			if t.ClientID == own.client && t.Subject == own.user {
+				return true
+			}
+		}
+		for _, r := range s.St.Refreshes {
+			if r.ClientID == own.client && r.Subject == own.user {
+				return true
+			}
+		}
+		return false
+	}
+	match := (tt == "access_token" && class == "live-at") || (tt == "refresh_token" && class == "live-rt") ||
+		(tt == "id_token" && class == "live-idt" && sessionOpen())
 	exp := "must-refuse"
 	switch {
 	case match && subjectOK:
 		exp = "must-accept"
-	case class == "live-at" || class == "live-rt":
-		exp = "either" // a live token presented under the other type name, or next to an expired subject
+	case class == "live-at" || class == "live-rt" || class == "live-idt" || class == "xhost-live-at" || class == "xhost-live-rt":
+		// a live token presented under another type name, or next to an expired subject, an id token of a
+		// closed session, a live opaque string under another host of a dynamic issuer
+		exp = "either"
+	case tt == "id_token" && tk.provSigned && now.Before(engine.Epoch.Add(atLife)):
+		// harness-made string carrying the provider's signature and issuer, unexpired: as an id token it is as good as issued
+		exp = "either"
+		class = "provider-signed"
 	case tk.names != "" && liveAT(s.St, tk.names, now):
 		// names a live token id with another subject: whether id and subject belong together is
 		// decided by TokenExchangeStorage.ValidateTokenExchangeRequest alone; refstore does not compare them
@@ -1056,6 +1378,9 @@ func (w *world) doExchange(s S, p []string, router int, do doFn, resp **rig.Resp
 		out = fmt.Sprintf("status%dxx", rp.Status/100)
 	}
 	in := role + "-" + group(tk)
+	if tt == "id_token" && group(tk) != "idt" && group(tk) != "forged-idt" {
+		in += "-as-id_token" // a string that is not an id token declared as one: its own verification path
+	}
 	switch exp {
 	case "must-accept":
 		if out != "accepted" && out != "panic" {
@@ -1077,7 +1402,7 @@ func (w *world) doExchange(s S, p []string, router int, do doFn, resp **rig.Resp
 // succeed (that is C07); the step exists so that histories contain issuance: afterwards the
 // actors hold a second generation of strings and the first generation is whatever the
 // storage made of it (refstore: rotated out).
-func (w *world) doRefresh(s S, st *refstore.State, p []string, router int, do doFn, resp **rig.Resp) (engine.Result, effect, map[string]held, string, string) {
+func (w *world) doRefresh(s S, st *refstore.State, p []string, router, host int, do doFn, resp **rig.Resp) (engine.Result, effect, map[string]held, string, string) {
 	f := w.famByName(p[2])
 	st.Seq = f.seq1 // ids of the new pair become rt<seq1+1>, at<seq1+2> whatever happened before
 	do("POST", "/oauth/token", url.Values{"grant_type": {"refresh_token"}, "refresh_token": {f.rt}},
@@ -1101,7 +1426,7 @@ func (w *world) doRefresh(s S, st *refstore.State, p []string, router int, do do
 		for k, v := range s.Held {
 			nh[k] = v
 		}
-		nh[f.name] = held{AT: rp.Str("access_token"), RT: rp.Str("refresh_token")}
+		nh[f.name] = held{AT: rp.Str("access_token"), RT: rp.Str("refresh_token"), Host: host}
 		return engine.OK(rule, "issued"), eff, nh, "refresh", f.name
 	case rp.Status >= 400:
 		return engine.OK(rule, "refused"), eff, nil, "refresh", f.name
@@ -1111,13 +1436,21 @@ func (w *world) doRefresh(s S, st *refstore.State, p []string, router int, do do
 
 // --- end_session ------------------------------------------------------------
 
-func (w *world) doEndSession(s S, p []string, router int, do doFn, resp **rig.Resp) (engine.Result, effect, string, string) {
+func (w *world) doEndSession(s S, p []string, router, host int, do doFn, resp **rig.Resp) (engine.Result, effect, string, string) {
 	f := w.famByName(p[2])
-	hintLive := w.clocks[s.Clock] < idtLife
-	do("GET", "/end_session", url.Values{"id_token_hint": {f.idt}}, nil)
+	hintLive := w.now(s).Before(f.idtExp)
+	q := url.Values{"id_token_hint": {f.idt}}
+	if len(p) > 3 && p[3] == "hint+cid" {
+		q.Set("client_id", f.client)
+	}
+	do("GET", "/end_session", q, nil)
 	rp := *resp
 	rule := "logout-valid-hint"
-	if !hintLive {
+	switch {
+	case w.dyn && f.host != host:
+		rule = "logout-other-issuer-hint" // id token of another issuer: refusing and honouring are both fine
+		hintLive = false
+	case !hintLive:
 		rule = "logout-expired-hint"
 	}
 	var out string
@@ -1162,42 +1495,43 @@ func TestCheck(t *testing.T) {
 		"tokens created by a successful exchange are discarded after the step (the actors never present them)",
 		"a panic in a handler is classified 'panic' and is property C09's business; it satisfies must-refuse, not must-serve",
 		"opaque token ciphertexts use the provider's random IVs; verdict classes do not depend on them")
-	type part struct {
-		name        string
-		fams        []string
-		refreshable []string
-	}
 	thorough := c.Thorough()
 	if c.ReplayFile != "" { // vcheck replays under the quick tier: the recorded part tells which alphabet the path belongs to
 		var path []string
-		if pn, err := c.LoadReplay(&path); err == nil && strings.HasPrefix(pn, "liveness-") {
+		if pn, err := c.LoadReplay(&path); err == nil && (strings.HasPrefix(pn, "liveness-") || strings.HasSuffix(pn, "-thorough")) {
 			thorough = true
 		}
 	}
-	parts := []part{{"liveness", []string{"web", "webjwt", "pub"}, []string{"web"}}}
+	parts := []part{
+		{name: "liveness", fams: []string{"web", "webjwt", "pub"}, refreshable: []string{"web"}, depth: 5},
+		{name: "dynamic-issuer", fams: []string{"ja", "jb", "oa"}, dyn: true, via: "host", depth: 3},
+	}
 	if thorough {
 		// two compositions instead of one product of five families: families interact only through a
 		// shared user (web, webjwt, pub: u1) or a shared client (web, webu2); each such group is explored together
 		parts = []part{
-			{"liveness-shared-user", []string{"web", "webjwt", "pub"}, []string{"web", "webjwt"}},
-			{"liveness-shared-client", []string{"web", "webu2", "jwtc"}, nil},
+			{name: "liveness-shared-user", fams: []string{"web", "webjwt", "pub"}, refreshable: []string{"web", "webjwt"}, depth: 20},
+			{name: "liveness-shared-client", fams: []string{"web", "webu2", "jwtc"}, depth: 20},
+			{name: "dynamic-issuer-host-thorough", fams: []string{"ja", "jb", "oa"}, refreshable: []string{"ja"}, dyn: true, via: "host", depth: 4},
+			{name: "dynamic-issuer-forwarded-thorough", fams: []string{"ja", "jb", "oa"}, dyn: true, via: "forwarded", depth: 3},
 		}
 	}
 	alphabet := map[string]any{}
 	for _, pt := range parts {
-		w := build(t, c, thorough, pt.fams, pt.refreshable)
+		w := build(t, c, thorough, pt)
 		if w == nil {
 			break
 		}
 		alphabet[pt.name] = map[string]any{"families": pt.fams, "refresh_enabled_for": pt.refreshable, "token_strings": len(w.toks),
-			"operations_per_state_max": len(w.enabled(S{Held: map[string]held{"web": {}, "webjwt": {}}})), "clock_buckets_s": secs(w.clocks)}
+			"operations_per_state_max": len(w.enabled(S{Held: map[string]held{"web": {}, "webjwt": {}, "ja": {}}})), "clock_buckets_s": secs(w.clocks),
+			"dynamic_issuer": pt.dyn, "hosts": map[bool][]string{true: w.hosts}[pt.dyn]}
 		engine.RunE2(c, engine.E2[S]{
 			Part:      pt.name,
 			Init:      S{St: w.init, Clock: 0},
 			Ops:       w.enabled,
 			NewStep:   w.newStep(t),
 			Canon:     w.canon,
-			MaxDepth:  map[bool]int{false: 5, true: 20}[thorough],
+			MaxDepth:  pt.depth,
 			MaxStates: 200000,
 		})
 	}
